@@ -31,6 +31,11 @@ extern "C"
         const int* replay; // explicit schedule (thread ids), used first
         long nreplay;
         int verbose;
+        // window injection: the window_index-th time (0-based) any thread stops at scheduling point `window_label`,
+        // thread `window_thread` is run for the next `window_steps` decisions (if runnable) before the strategy resumes.
+        // Sweeping (index, thread, steps) places another thread's steps systematically inside a check-then-sleep window.
+        const char* window_label;
+        int window_index, window_thread, window_steps;
     };
 
     // hang callback: kind = "deadlock" | "livelock"; must not return (write the trace, then _exit)
@@ -52,6 +57,7 @@ extern "C"
     void vs_yield_low(const char* at); // yield of a polling loop: gives way to every other thread under PCT
     void vs_wait(void* obj, const char* at);   // block until vs_signal(obj)
     void vs_signal(void* obj);
+    int vs_spurious_wake_all(void); // probe: wake every cv sleeper (legal spurious wake-up); returns how many
     void vs_join_all(void); // main thread: run the others until all are done
     int vs_self(void);
     const char* vs_name(int t);
